@@ -119,7 +119,7 @@ def _series(pairs, names):
     return pd.Series([float(v) for _, v in pairs], index=idx, dtype="float64")
 
 
-def user_recovery(init_impact_stock, elapsed_temporal_unit, recovery_tau):
+def user_recovery(elapsed_temporal_unit, init_impact_stock, recovery_tau):
     """A user-supplied recovery callable (quadratic decay)."""
     r = max(0.0, 1.0 - elapsed_temporal_unit / recovery_tau)
     return init_impact_stock * r * r
